@@ -592,11 +592,23 @@ func bits(v uint64, n int) []int {
 	return out
 }
 
+// nanoDeg: a difference in nano-degrees, clamped to what TLC's 32-bit integers hold
+func nanoDeg(d float64) int {
+	v := math.Round(d * 1e9)
+	if v > 2e9 {
+		v = 2e9
+	}
+	if v < -2e9 {
+		v = -2e9
+	}
+	return int(v)
+}
+
 func mortonRecord(lon, lat float64, nb, cx, cy int) map[string]any {
 	h := geo.MortonHash(lon, lat)
 	return map[string]any{"kind": "morton", "hash": bits(h, 64),
 		"lonq": bits(numeric.Deinterleave(h), 32), "latq": bits(numeric.Deinterleave(h>>1), 32),
-		"elon": int(math.Round((lon - geo.MortonUnhashLon(h)) * 1e9)), "elat": int(math.Round((lat - geo.MortonUnhashLat(h)) * 1e9)),
+		"elon": nanoDeg(lon - geo.MortonUnhashLon(h)), "elat": nanoDeg(lat - geo.MortonUnhashLat(h)),
 		"nb": nb, "cx": cx, "cy": cy, "lon": fmt.Sprint(lon), "lat": fmt.Sprint(lat)}
 }
 
